@@ -171,6 +171,28 @@ class C17(Property):
                         pts.append((g.f32(rng.uniform(-300, 800)), g.f32(rng.uniform(-300, 700)), None))
                 pts[0] = (pts[0][0], pts[0][1], "B")
                 tag = "bezier-straight-run"
+            elif k < 0.6:
+                # long control polygons that bend gently (a parabola, a circle arc, a sine, lightly jittered): every flatness test passes
+                # early, so each piece is long and what is emitted for a flat piece matters (seed C17-o: start + midpoint only)
+                m = rng.randint(10, 40)
+                shape = rng.randint(0, 2)
+                step = rng.uniform(4, 30)
+                x0, y0 = rng.uniform(-100, 300), rng.uniform(-100, 300)
+                cur = rng.uniform(0.02, 0.5) * rng.choice([-1, 1])
+                rad = rng.uniform(60, 400)
+                jit = rng.choice([0.0, 0.0, 0.5, 2.0])
+                pts = []
+                for i in range(m):
+                    if shape == 0:
+                        x, y = x0 + step * i, y0 + cur * i * i
+                    elif shape == 1:
+                        th = i * step / rad
+                        x, y = x0 + rad * math.sin(th), y0 + rad * (1 - math.cos(th))
+                    else:
+                        x, y = x0 + step * i, y0 + 40 * math.sin(i * cur)
+                    pts.append((g.f32(x + rng.uniform(-jit, jit)), g.f32(y + rng.uniform(-jit, jit)), None))
+                pts[0] = (pts[0][0], pts[0][1], "B")
+                tag = "bezier-long-gentle"
             elif k < 0.75:
                 m = rng.randint(2, 8)
                 x, y = rng.uniform(-300, 700), rng.uniform(-300, 700)
